@@ -25,18 +25,16 @@ namespace Model
 /-! ## Spec layer -/
 namespace Spec
 
-/-- source index of resized row/column `r` (one axis): `r + centre − ⌊n'/2⌋`. -/
-def srcIndex (centre n' r : Nat) : Int := (r : Int) + (centre : Int) - ((n' / 2 : Nat) : Int)
-
-/-- `0 ≤ i < n` for a Python int `i`. -/
-def inRange (i : Int) (n : Nat) : Bool := decide (0 ≤ i) && decide (i < (n : Int))
+/-- source index of resized row/column `r` (one axis): `centre − ⌊n'/2⌋ + r`. -/
+def srcIndex (centre n' r : Nat) : Int := (centre : Int) - ((n' / 2 : Nat) : Int) + (r : Int)
 
 /-- the centred window copy as a closed form: pixel `(r,c)` of the result is the source pixel at
     `(r + c_y − ⌊h'/2⌋, c + c_x − ⌊w'/2⌋)` if that lies in the source, else the pad value. -/
 def resizedAt (src : List α) (h w h' w' cy cx : Nat) (pad zero : α) (r c : Nat) : α :=
   let y := srcIndex cy h' r
   let x := srcIndex cx w' c
-  if inRange y h && inRange x w then src.getD (y.toNat * w + x.toNat) zero else pad
+  if 0 ≤ y ∧ y < (h : Int) ∧ 0 ≤ x ∧ x < (w : Int) then src.getD (y.toNat * w + x.toNat) zero
+  else pad
 
 def resized (src : List α) (h w h' w' cy cx : Nat) (pad zero : α) : List α :=
   (pixels h' w').map fun p => resizedAt src h w h' w' cy cx pad zero p.1 p.2
@@ -45,7 +43,9 @@ def resized (src : List α) (h w h' w' cy cx : Nat) (pad zero : α) : List α :=
 def extractedAt (src : List α) (h w : Nat) (y0 x0 : Int) (zero : α) (r c : Nat) : α :=
   let y := y0 + (r : Int)
   let x := x0 + (c : Int)
-  if inRange y h && inRange x w then src.getD (y.toNat * w + x.toNat) zero else zero
+  if 0 ≤ y ∧ 0 ≤ x ∧ y ≤ (h : Int) - 1 ∧ x ≤ (w : Int) - 1 then
+    src.getD (y.toNat * w + x.toNat) zero
+  else zero
 
 def extracted (src : List α) (h w : Nat) (y0 y1 x0 x1 : Int) (zero : α) : List α :=
   (pixels (y1 - y0).toNat (x1 - x0).toNat).map fun p => extractedAt src h w y0 x0 zero p.1 p.2
@@ -145,6 +145,12 @@ structure Arr (α : Type) where
   native : List α
   storeNative : Bool
 deriving Repr, DecidableEq
+
+/-- the invariant every `Array2D` satisfies after construction: well-formed mask, native values of
+    the mask's shape, zeros at masked pixels. -/
+def Arr.WF (a : Arr α) (zero : α) : Prop :=
+  a.gm.mask.WF ∧ a.native.length = a.gm.mask.h * a.gm.mask.w
+    ∧ applyMask a.gm.mask a.native zero = a.native
 
 /-- `Mask2D.resized_from(new_shape, pad_value)`: the boolean array goes through
     `resized_array_2d_from(...).astype("bool")` (bool → float → bool is the identity; the pad value
